@@ -16,6 +16,11 @@ Oracle (float64, public arrays only, formulas written from the property statemen
   ``grid_point_radius_ratio`` in [0, 1]), centre markers on the element centre; every marker velocity ==
   ``v_elem + Omega_elem_lab x offset``.  Repeated after the rod has been advanced / re-posed (stale caches).
 
+Workload diversity (added after the seeded-change campaign): every sixth body starts with omega == 0 exactly, every
+sixth with V == 0 exactly; every fifth case builds a SIBLING grid of the same class with the same structural constructor
+arguments (element count, density / number of forcing points) around another body, with positional constructor arguments
+(with_cap default left out), checks it, and then re-checks the FIRST grid.
+
 Tolerances: 64 * eps64 * (|terms|).  Measured max err/tol on the unchanged tree (quick seeds 0..5, thorough
 seeds 0,1): rigid_velocity 0.022, rod_velocity 0.009, rod_position 0.06 (0.05 of it on the edge grid: PyElastica's
 +1e-14 length regularisation makes |tangent| = 1 - 1e-14/l_e; 20x that is allowed), sphere_translation 0.022.
@@ -86,6 +91,11 @@ REQUIRE = {
     "nodal_markers_checked": 50,
     "bodies_2d_d3_flipped": 1,
     "states_after_motion": 50,
+    "states_with_omega_exactly_zero": 50,
+    "states_with_velocity_exactly_zero": 50,
+    "sibling_grids_checked": 50,
+    "sibling_grids_built_positionally": 30,
+    "first_grids_rechecked_after_sibling": 50,
 }
 K = 64.0
 EPS = float(np.finfo(np.float64).eps)
@@ -309,6 +319,50 @@ def _move(case, rng):
         bodies.set_rigid_state(b, rng, case.dim, centre=b.position_collection[:, 0].copy(), keep_directors=True)
 
 
+def _positional_grid(case):
+    """a second grid object of the same class built with POSITIONAL constructor arguments in the documented order and the
+    documented default left out (with_cap=False); generic base grids keep the keyword-built grid"""
+    import sopht.simulator as sps
+
+    k, b, m = case.kind, case.body, case.meta
+    if k in ("nodal2d", "nodal3d"):
+        return sps.CosseratRodNodalForcingGrid(case.dim, b)
+    if k in ("elem2d", "elem3d"):
+        return sps.CosseratRodElementCentricForcingGrid(case.dim, b)
+    if k == "edge2d":
+        return sps.CosseratRodEdgeForcingGrid(2, b)
+    if k == "surface3d":
+        return sps.CosseratRodSurfaceForcingGrid(3, b, int(m["density"]))
+    if k == "surfacecap3d":
+        return sps.CosseratRodSurfaceForcingGrid(3, b, int(m["density"]), True)
+    if k == "cyl2d":
+        return sps.CircularCylinderForcingGrid(2, b, int(m["num"]))
+    if k == "cyl3d":
+        return sps.OpenEndCircularCylinderForcingGrid(3, b, int(m["num"]))
+    if k == "sphere3d":
+        return sps.SphereForcingGrid(3, b, int(m["num"]))
+    if k == "plane3d":
+        return sps.RectangularPlaneForcingGrid(3, b, int(m["num"]))
+    return None
+
+
+def _check_state(rec, case, tag):
+    """refresh the grid (position, then velocity) and run every monitor of the grid's family; False if SophT raised"""
+    try:
+        bodies.refresh_grid(case.grid)
+    except Exception as e:
+        rec.violation(f"grid-update-raises|{case.kind}", f"{type(e).__name__}: {e} {case.meta}", {"meta": case.meta})
+        return False
+    if case.family == "rigid":
+        _rigid_formula(rec, case, tag)
+        rec.case((case.kind, "formula", tag, "flipped" if case.meta.get("flipped") else ""))
+        _rigid_fd(rec, case, tag)
+        case.grid.compute_lag_grid_velocity_field()
+    else:
+        _rod_checks(rec, case, tag)
+    return True
+
+
 def run_shard(sh, rec):
     import logging
 
@@ -332,6 +386,16 @@ def run_shard(sh, rec):
         if case.grid.num_lag_nodes == 0:
             rec.case(None)
             continue
+        # exact ties in the initial state: angular velocity identically zero / linear velocity identically zero
+        tie = {4: "omega0", 5: "v0"}.get(j % 6)
+        if tie == "omega0":
+            case.body.omega_collection[...] = 0.0
+            rec.count("states_with_omega_exactly_zero")
+        elif tie == "v0":
+            case.body.velocity_collection[...] = 0.0
+            rec.count("states_with_velocity_exactly_zero")
+        if tie:
+            case.meta["tie"] = tie
         for state in range(2):
             tag = f"state{state}"
             if state:
@@ -349,3 +413,28 @@ def run_shard(sh, rec):
                 case.grid.compute_lag_grid_velocity_field()
             else:
                 _rod_checks(rec, case, tag)
+        else:
+            if j % 5 != 2:
+                continue
+            # sibling object: a SECOND grid of the same class with the SAME structural constructor arguments (element count,
+            # density / number of forcing points) around ANOTHER body (size, pose, velocities), built with positional
+            # arguments; then the FIRST grid again (module-level state keyed by the shared arguments, or overwritten)
+            sopts = {k: case.meta[k] for k in ("n_elems", "density", "num") if k in case.meta}
+            case2 = bodies.make_case(rng, kind, **sopts)
+            if case2.grid.num_lag_nodes == 0:
+                continue
+            g2 = _positional_grid(case2)
+            if g2 is not None:
+                if g2.num_lag_nodes != case2.grid.num_lag_nodes:
+                    rec.violation(f"grid-marker-count-depends-on-call-style|{kind}", f"positional {g2.num_lag_nodes} vs keyword {case2.grid.num_lag_nodes} {case2.meta}", {"meta": case2.meta})
+                    continue
+                case2.grid = g2
+                rec.count("sibling_grids_built_positionally")
+            case2.meta["object"] = "sibling"
+            if case2.dim == 2 and case2.family == "rigid" and case2.body.director_collection[2, 2, 0] < 0:
+                case2.meta["flipped"] = True
+            if _check_state(rec, case2, "sibling"):
+                rec.count("sibling_grids_checked")
+            case.meta["object"] = "first-after-sibling"
+            if _check_state(rec, case, "first-after-sibling"):
+                rec.count("first_grids_rechecked_after_sibling")
